@@ -390,7 +390,7 @@ def _after_rotation(prog: Program, L: Ledger, s) -> None:
     rets = [st for st in f.body() if isinstance(st, ast.Return)]
     okc = False
     rv = Inliner(f.node).inline(rets[0].value) if len(rets) == 1 else None
-    if rv is not None and isinstance(rv, ast.Call) and norm(rv.func) == "np.sum":
+    if rv is not None and isinstance(rv, ast.Call) and norm(rv.func) in ("np.sum", "numpy.sum", "np.add.reduce", "numpy.add.reduce"):
         c = rv
         kws = {k.arg: norm(k.value) for k in c.keywords}
         a = c.args[0] if c.args else None
